@@ -13,6 +13,8 @@ B(b) == [k |-> "bool", b |-> b]
 A(a) == [k |-> "arr", a |-> a]
 O(o) == [k |-> "obj", o |-> o]
 Mixed(n) == A([i \in 1..n |-> CASE i % 5 = 0 -> Nil [] i % 5 = 1 -> I("3") [] i % 5 = 2 -> S(<<98, 233>>) [] i % 5 = 3 -> F("5", "2") [] OTHER -> A(<<I("1")>>)])
+\* scalars only, of kinds that do not compare with each other (a sort over them has no consistent order)
+ScalarMix(n) == A([i \in 1..n |-> CASE i % 3 = 0 -> I(ToString((i * 7) % 11)) [] i % 3 = 1 -> S(<<97 + (i % 5)>>) [] OTHER -> F(ToString(i), "2")])
 Pool ==
   { Nil, B(TRUE), B(FALSE), I("0"), I("1"), I("-1"), I("2"), I("10000"), I("-10000"), I("9223372036854775807"), I("-9223372036854775808"),
     F("0", "1"), F("1", "2"), F("-1", "2"), F("5", "2"), F("-7", "2"), F("9223372036854775808", "1"), [k |-> "float", special |-> "inf"],
@@ -21,7 +23,7 @@ Pool ==
     S(<<45, 51, 46, 53>>), S(<<37>>), S(<<37, 233>>), S(<<60, 98, 62, 38, 97, 109, 112, 59>>), S(<<37, 70, 70>>),
     S(<<50, 48, 49, 54, 45, 48, 50, 45, 49, 54, 32, 49, 48, 58, 48, 48, 58, 48, 48>>),       \* 2016-02-16 10:00:00
     S(<<37, 89, 45, 37, 109, 37>>), S(<<112>>),
-    A(<<>>), A(<<I("1")>>), A(<<Nil, S(<<97>>), F("5", "2"), A(<<I("1")>>)>>), Mixed(21), Mixed(40),
+    A(<<>>), A(<<I("1")>>), A(<<Nil, S(<<97>>), F("5", "2"), A(<<I("1")>>)>>), Mixed(21), Mixed(40), ScalarMix(24), ScalarMix(61),
     A(<<O([q \in {"p"} |-> I("1")]), O([q \in {"p"} |-> Nil]), O([q \in {"q"} |-> S(<<97>>)])>>),
     O([q \in {} |-> Nil]), O([q \in {"p"} |-> I("1")]), O([q \in {"p", "size"} |-> S(<<120>>)]) }
 ArgPoolSmall == { Nil, I("0"), I("-1"), I("9223372036854775807"), I("-9223372036854775808"), F("1", "2"), S(<<>>), S(<<233>>), S(<<112>>), A(<<I("1")>>),
